@@ -401,7 +401,12 @@ impl Gen {
 
 pub fn gen_history(seed: u64, p: &Profile) -> History {
     let mut g = Gen::new(seed, p);
-    let max_ops = p.max_ops.max(1) as u64;
+    let deep = crate::driver::DEEP.load(std::sync::atomic::Ordering::Relaxed) && g.k.chance(1, 10);
+    let max_ops = if deep {
+        3 * p.max_ops.max(1) as u64
+    } else {
+        p.max_ops.max(1) as u64
+    };
     let len = if g.k.chance(1, 2) {
         1 + g.k.below(max_ops.min(8))
     } else {
